@@ -58,54 +58,107 @@ ENUM_ROWS = {
 
 def _T():
     I = {'kind': 'Integer'}
-    t = []
-    for m in ('A', 'C'):
-        t += [
-            {'op': 'add_field', 'model': m, 'name': 'f3',
-             'fdef': dict(I, null=True)},
-            {'op': 'add_field', 'model': m, 'name': 'f3',
-             'fdef': {'kind': 'Char', 'max_length': 10}, 'initial': 'x'},
-            {'op': 'add_field', 'model': m, 'name': 'f2',
-             'fdef': dict(I, db_index=True), 'initial': 7},
-            {'op': 'delete_field', 'model': m, 'name': 'f2'},
-            {'op': 'delete_field', 'model': m, 'name': 'f3'},
-            {'op': 'rename_field', 'model': m, 'old': 'f2', 'new': 'f3'},
-            {'op': 'rename_field', 'model': m, 'old': 'f3', 'new': 'f2'},
-            {'op': 'change_field', 'model': m, 'name': 'f2',
-             'attrs': {'null': False}, 'initial': 5},
-            {'op': 'change_field', 'model': m, 'name': 'f2',
-             'attrs': {'null': True}},
-            {'op': 'change_field', 'model': m, 'name': 'n',
-             'attrs': {'db_index': False}},
-        ]
-    t += [
-        {'op': 'change_field', 'model': 'A', 'name': 'f1',
-         'attrs': {'max_length': 50}},
+    t = [
+        {'op': 'add_field', 'model': 'A', 'name': 'f3',
+         'fdef': dict(I, null=True)},
+        {'op': 'add_field', 'model': 'A', 'name': 'f3',
+         'fdef': {'kind': 'Char', 'max_length': 10}, 'initial': 'x'},
+        {'op': 'add_field', 'model': 'A', 'name': 'f2',
+         'fdef': dict(I, db_index=True), 'initial': 7},
+        {'op': 'delete_field', 'model': 'A', 'name': 'f2'},
+        {'op': 'delete_field', 'model': 'A', 'name': 'f3'},
+        {'op': 'rename_field', 'model': 'A', 'old': 'f2', 'new': 'f3'},
+        {'op': 'rename_field', 'model': 'A', 'old': 'f3', 'new': 'f2'},
+        {'op': 'rename_field', 'model': 'A', 'old': 'n', 'new': 'f2'},
+        {'op': 'change_field', 'model': 'A', 'name': 'f2',
+         'attrs': {'null': False}, 'initial': 5},
+        {'op': 'change_field', 'model': 'A', 'name': 'f2',
+         'attrs': {'null': True}},
+        {'op': 'change_field', 'model': 'A', 'name': 'n',
+         'attrs': {'db_index': False}},
         {'op': 'change_field', 'model': 'A', 'name': 'n',
          'attrs': {'db_index': True}},
+        {'op': 'change_field', 'model': 'A', 'name': 'f1',
+         'attrs': {'max_length': 50}},
+        {'op': 'change_field', 'model': 'A', 'name': 'f2',
+         'attrs': {'db_index': True}},
+        # ---- 14.. : Meta, models, barrier
         {'op': 'change_meta', 'model': 'A', 'prop': 'unique_together',
          'value': [['f1', 'n']]},
         {'op': 'change_meta', 'model': 'A', 'prop': 'unique_together',
          'value': []},
         {'op': 'change_meta', 'model': 'A', 'prop': 'indexes',
          'value': [{'fields': ['n', 'f1'], 'name': 'ix_enum1'}]},
+        {'op': 'change_meta', 'model': 'A', 'prop': 'index_together',
+         'value': [['f1', 'n']]},
         {'op': 'rename_model', 'old': 'A', 'new': 'C', 'db_table': 'app1_c'},
         {'op': 'rename_model', 'old': 'C', 'new': 'A', 'db_table': 'app1_a'},
         {'op': 'delete_model', 'model': 'B'},
         {'op': 'add_field', 'model': 'B', 'name': 'f2',
          'fdef': dict(I, null=True)},
         {'op': 'sql', 'tag': 'barrier', 'sql': ['SELECT 1;']},
+        # ---- the same field operations on the renamed model
+        {'op': 'add_field', 'model': 'C', 'name': 'f3',
+         'fdef': dict(I, null=True)},
+        {'op': 'delete_field', 'model': 'C', 'name': 'f2'},
+        {'op': 'change_field', 'model': 'C', 'name': 'f2',
+         'attrs': {'null': False}, 'initial': 5},
+        {'op': 'rename_field', 'model': 'C', 'old': 'f2', 'new': 'f3'},
     ]
     for e in t:
         e['app'] = 'app1'
     return t
 
 
+N_FIELD_TEMPLATES = 14      # templates 0..13 only touch fields of model A
 TEMPLATES = _T()
 
 
 def eff_seed(seed):
     return seed % 8
+
+
+_BASELINE = {}
+
+
+def baseline(pid):
+    """{'i,j,k': [item signature, ...]} of the enumerated sequences that
+    disagree on the released tree (committed, read-only)."""
+    if pid not in _BASELINE:
+        import json
+        import os
+        path = os.path.join(os.path.dirname(os.path.dirname(os.path.dirname(
+            os.path.abspath(__file__)))), 'baselines', '%s_enum.json' % pid)
+        try:
+            _BASELINE[pid] = json.load(open(path))
+        except IOError:
+            _BASELINE[pid] = None
+    return _BASELINE[pid]
+
+
+def item_signature(it):
+    return '|'.join(str(it.get(k) or '') for k in
+                    ('type', 'path', 'exc', 'site', 'attr'))
+
+
+def apply_baseline(pid, desc, items):
+    """Enumerated (deterministic) inputs are judged input by input: an
+    enumerated sequence may only show discrepancies that the committed
+    baseline lists for exactly that sequence."""
+    if desc.get('mode') != 'enum':
+        return
+    base = baseline(pid)
+    if base is None:
+        return
+    key = ','.join(str(x) for x in desc['seq'])
+    allowed = set(base.get(key, []))
+    new = sorted(set(item_signature(it) for it in items) - allowed)
+    for it in items:
+        it['baselined'] = item_signature(it) in allowed
+    if new:
+        items.append({'type': 'ENUM_BEHAVIOUR_CHANGED', 'seq': key,
+                      'new_signatures': new[:8],
+                      'baselined_signatures': len(allowed)})
 
 
 def plan(tier, seed):
@@ -115,6 +168,10 @@ def plan(tier, seed):
     n = len(TEMPLATES)
     for L in range(2, maxlen + 1):
         for seq in itertools.product(range(n), repeat=L):
+            descs.append({'mode': 'enum', 'seq': list(seq)})
+    if tier == 'thorough':
+        # length 4 over the field-only alphabet of model A
+        for seq in itertools.product(range(N_FIELD_TEMPLATES), repeat=4):
             descs.append({'mode': 'enum', 'seq': list(seq)})
     descs += [{'mode': 'rand', 'seed': es, 'i': i} for i in range(nrand)]
     return descs
@@ -292,6 +349,7 @@ def run_case(desc):
     for it in items:
         it.pop('rebuilt', None)
         it.update(ev)
+    apply_baseline('C03', desc, items)
     nontrivial = bool(ev['rules']) or sum(
         (obs.get('merge_pairs') or {}).values()) >= 1
     return {'key': S.canon([case['spec0'], edits]), 'nontrivial': nontrivial,
